@@ -268,7 +268,7 @@ func (db *DB) AcquireHaltLock(ctx context.Context, lockID int64) (_ *HaltLock, r
 	// There shouldn't be an existing halt lock but clear it just in case.
 	prev := db.haltLockAndGuard.Load().(*haltLockAndGuard)
 	if prev != nil {
-		prev.guardSet.Unlock()
+		prev.unlock()
 	}
 
 	// Ensure we're swapping out the one we just unlocked so there's no race.
@@ -305,9 +305,25 @@ func (db *DB) ReleaseHaltLock(ctx context.Context, id int64) {
 	db.haltLockAndGuard.CompareAndSwap(curr, (*haltLockAndGuard)(nil))
 
 	// Release the guard set so the database can write again.
-	curr.guardSet.Unlock()
+	curr.unlock()
 
 	TraceLog.Printf("[ReleaseHaltLock.Done(%s)]:", db.name)
+}
+
+// beginForwardedApply returns once it is certain that the halt lock with the
+// given identifier stays held until the returned function is called. Returns an
+// error if the lock is not the current one (released or expired).
+func (db *DB) beginForwardedApply(id int64) (end func(), err error) {
+	curr := db.haltLockAndGuard.Load().(*haltLockAndGuard)
+	if curr == nil || curr.haltLock.ID != id {
+		return nil, fmt.Errorf("halt lock not held: %d", id)
+	}
+	curr.applyMu.RLock()
+	if db.haltLockAndGuard.Load().(*haltLockAndGuard) != curr {
+		curr.applyMu.RUnlock()
+		return nil, fmt.Errorf("halt lock not held: %d", id)
+	}
+	return curr.applyMu.RUnlock, nil
 }
 
 // HoldsHaltLock returns true if the halt lock with the given identifier is
@@ -330,7 +346,7 @@ func (db *DB) EnforceHaltLockExpiration(ctx context.Context) {
 
 	// Clear lock & unlock its guards.
 	db.haltLockAndGuard.CompareAndSwap(curr, (*haltLockAndGuard)(nil))
-	curr.guardSet.Unlock()
+	curr.unlock()
 }
 
 // AcquireRemoteHaltLock acquires the remote lock and syncs the database to its
@@ -2574,20 +2590,30 @@ func (db *DB) invalidateJournal(mode JournalMode) error {
 //
 // Returns the path of the new LTX file on success.
 func (db *DB) WriteLTXFileAt(ctx context.Context, r io.Reader) (string, error) {
-	return db.writeLTXFileAt(ctx, r, false)
+	return db.writeLTXFileAt(ctx, r, false, nil)
 }
 
-// WriteForwardedLTXFileAt is WriteLTXFileAt for a file that comes from a
-// halt-lock holder rather than from the primary. Applying a file is fatal
-// once the database is being written so what the file claims about the
+// WriteForwardedLTXFileAt is WriteLTXFileAt for a file that comes from the
+// holder of halt lock lockID rather than from the primary. Applying a file is
+// fatal once the database is being written so what the file claims about the
 // resulting database is checked against the current pages before the file is
 // published: a sender must not be able to stop the primary with a file that
-// is well-formed but wrong.
-func (db *DB) WriteForwardedLTXFileAt(ctx context.Context, r io.Reader) (string, error) {
-	return db.writeLTXFileAt(ctx, r, true)
+// is well-formed but wrong. The body may arrive slowly; once it is complete
+// the lock must still be held, and it stays held until the caller has applied
+// the file and calls done.
+func (db *DB) WriteForwardedLTXFileAt(ctx context.Context, r io.Reader, lockID int64) (path string, done func(), err error) {
+	path, err = db.writeLTXFileAt(ctx, r, true, func() (err error) {
+		done, err = db.beginForwardedApply(lockID)
+		return err
+	})
+	if err != nil && done != nil {
+		done()
+		done = nil
+	}
+	return path, done, err
 }
 
-func (db *DB) writeLTXFileAt(ctx context.Context, r io.Reader, verifyPostApplyChecksum bool) (string, error) {
+func (db *DB) writeLTXFileAt(ctx context.Context, r io.Reader, verifyPostApplyChecksum bool, beforePublish func() error) (string, error) {
 	// Read & parse initial header.
 	buf := make([]byte, ltx.HeaderSize)
 	var hdr ltx.Header
@@ -2642,6 +2668,13 @@ func (db *DB) writeLTXFileAt(ctx context.Context, r io.Reader, verifyPostApplyCh
 			return "", fmt.Errorf("ltx validation error: %w", err)
 		} else if got := dec.Trailer().PostApplyChecksum; ok && got != chksum {
 			return "", fmt.Errorf("post-apply checksum mismatch: %s, expecting %s", got, chksum)
+		}
+	}
+
+	// The file is complete and valid: last call before anything changes.
+	if beforePublish != nil {
+		if err := beforePublish(); err != nil {
+			return "", err
 		}
 	}
 
@@ -4189,6 +4222,18 @@ type HaltLock struct {
 type haltLockAndGuard struct {
 	haltLock *HaltLock
 	guardSet *GuardSet
+
+	// Held shared while a transaction forwarded by the lock's holder is
+	// published and applied. The guard set is unlocked exclusively so that the
+	// lock is not given up (released, expired) in the middle of an apply.
+	applyMu sync.RWMutex
+}
+
+// unlock releases the guard set once no forwarded transaction is being applied.
+func (h *haltLockAndGuard) unlock() {
+	h.applyMu.Lock()
+	defer h.applyMu.Unlock()
+	h.guardSet.Unlock()
 }
 
 // ChecksumBlockSize is the number of pages that are grouped into a single checksum block.
